@@ -97,7 +97,8 @@ def run(ctx):
         ctx.count("parts=%d" % len(c["parts"]))
         if "error" in io or io.get("violations") != mo.get("violations"):
             ctx.brk("two-phase Linter pipeline ~ Kernel (mergeExports + lint with overridden aggregates)", kernel.slim(c), io, mo)
-            continue
+            if "error" in io:
+                continue
         two = io.get("violations") or []
         one = oneshot.get(c["w"])
         ctx.seen(c, ("two", c["w"], str(c["parts"]), str(c["mergeOrder"])) if one else None)
